@@ -259,6 +259,7 @@ impl Ctx {
                     let mut runner = TestRunner::new_with_rng(cfg, rng);
                     let strat = mk();
                     let failed_here = std::cell::Cell::new(false);
+                    let f = |v: &T| -> Out { guarded(&self.prop, || f(v), || format!("{:?}", v)) };
                     let res = runner.run(&strat, |v| {
                         if !failed_here.get() && self.stop.load(Ordering::Relaxed) {
                             return Ok(());
@@ -321,7 +322,7 @@ impl Ctx {
                     if i >= items.len() {
                         break;
                     }
-                    self.record(sub, f(&items[i]));
+                    self.record(sub, guarded(&self.prop, || f(&items[i]), || format!("item {}", i)));
                 })
                 .expect("spawn");
             }
@@ -388,6 +389,18 @@ impl Ctx {
             1
         } else {
             0
+        }
+    }
+}
+
+/// run a case; a panic that escapes the check itself is reported as a violation with the panic
+/// site in its signature (the checks catch the panics they expect)
+pub fn guarded(prop: &str, f: impl FnOnce() -> Out, describe: impl FnOnce() -> String) -> Out {
+    match crate::vm::catch(f) {
+        Ok(o) => o,
+        Err(p) => {
+            let site = p.rsplit(" @ ").next().unwrap_or("").rsplit('/').next().unwrap_or("").to_string();
+            Err(Viol::new(format!("{prop}:panic:{site}"), format!("panic: {p}"), json!({"generator_input": describe()})))
         }
     }
 }
